@@ -438,6 +438,15 @@ func (x *Exec) loopEnter(st *State, fr *Frame, li *loopInfo, from *ssa.BasicBloc
 	}
 	if lc != nil {
 		for _, c := range lc.Clauses {
+			if c.Kind == "assume" {
+				// an unchecked assumption at the loop head: trusted, listed in evidence
+				x.trusted["assumed without proof at loop "+fmt.Sprint(li.ord)+" of "+funcFull(fr.fn)+": "+c.Src] = true
+				x.assume(st, env2.evalBool(c.E))
+			}
+		}
+	}
+	if lc != nil {
+		for _, c := range lc.Clauses {
 			if c.Kind == "decreases" && clauseActive(c, x.active) {
 				al.decr = append(al.decr, env2.eval(c.E).(Term).S)
 			}
